@@ -70,5 +70,6 @@ def run(ck, facts, tier):
     rule_cover(ck, facts, cg)
     ck.require("C18.prims", "mimium_rust_template" in facts.files, "anchor|template-facts", "the Rust runtime template did not compile stand-alone under the extractor (see template-build.log); its primitives cannot be compared")
     prims.rule_delay(ck, facts, "C18.prims", want=("vm", "rust"))
+    prims.rule_array_index_rust(ck, facts, "C18.prims")
     rule_names(ck, facts)
     ck.not_decided("that every emitted source compiles with rustc and that its outputs equal the VM's (the operator text templates of the emitter are not decoded)")
